@@ -288,6 +288,9 @@ func (s *LinearState) deleteDependencies(ctx *Context, id string) error {
 			Log(WARN, ctx, "LinearState.deleteDependencies", "loop", id)
 			continue
 		}
+		if !dependsOn(s.Facts[sr.Id].M, id) {
+			continue
+		}
 		if _, err := s.rem(ctx, sr.Id, false); nil != err {
 			return err
 		}
